@@ -48,7 +48,8 @@ class B:
 
 
 namer = None  # set by the VM: callback that replaces a large formula by a definitional variable
-NAME_THRESHOLD = 48
+import os as _os
+NAME_THRESHOLD = int(_os.environ.get('VF_NAME_T', '48'))
 
 
 def compact(g: "B") -> "B":
